@@ -175,6 +175,40 @@ def check_s_edges(case, ctx):
     if _nonconstant(exp_b):
         ctx.label("betweenness-non-constant")
     ctx.nontrivial(len(edges) >= 3 and (_nonconstant(exp_b) or _nonconstant(exp_c)))
+    # the same object after a rewiring that keeps the numbers of nodes and hyperedges (one
+    # hyperedge replaced by another on existing nodes): the centralities must follow the content
+    rew = _rewire(h, nodes, edges)
+    if rew is not None:
+        og2 = _line_oracle(rew, s)
+        got_b = s_betweenness(h) if how == "default" else _call_s(s_betweenness, h, s, how)
+        _compare("s_betweenness(H, s=%d) [asked again after one hyperedge was replaced]" % s,
+                 got_b, nx.betweenness_centrality(og2), TOL_NX, canon=cedge)
+        got_c = s_closeness(h) if how == "default" else _call_s(s_closeness, h, s, how)
+        _compare("s_closeness(H, s=%d) [asked again after one hyperedge was replaced]" % s,
+                 got_c, nx.closeness_centrality(og2), TOL_NX, canon=cedge)
+        ctx.label("requery_after_rewiring")
+
+
+def _rewire(h, nodes, edges):
+    """Replace one hyperedge by a new one on existing nodes (same counts); returns the new
+    list of hyperedges or None when no replacement exists."""
+    if not edges or len(nodes) < 2:
+        return None
+    ns = sorted(nodes, key=repr)
+    old = sorted(edges, key=lambda e: (len(e), sorted(e, key=repr)))[0]
+    cand = None
+    for r in (2, 3, 1):
+        for c in combinations(ns, r):
+            if frozenset(c) not in edges:
+                cand = frozenset(c)
+                break
+        if cand is not None:
+            break
+    if cand is None:
+        return None
+    h.remove_edge(tuple(sorted(old, key=repr)))
+    h.add_edge(tuple(sorted(cand, key=repr)))
+    return [e for e in edges if e != old] + [cand]
 
 
 # --------------------------------------------------------------------------
@@ -202,6 +236,15 @@ def check_s_nodes(case, ctx):
     if nodes - covered:
         ctx.label("has-isolated-node")
     ctx.nontrivial(len(edges) >= 3 and (_nonconstant(exp_b) or _nonconstant(exp_c)))
+    rew = _rewire(h, nodes, edges)   # the node set stays the same (nodes are never removed)
+    if rew is not None:
+        og2 = _bip_oracle(nodes, rew)
+        b2, c2 = nx.betweenness_centrality(og2), nx.closeness_centrality(og2)
+        _compare("s_betweenness_nodes(H) [asked again after one hyperedge was replaced]",
+                 s_betweenness_nodes(h), {k[1]: v for k, v in b2.items() if k[0] == "n"}, TOL_NX)
+        _compare("s_closeness_nodes(H) [asked again after one hyperedge was replaced]",
+                 s_closeness_nodes(h), {k[1]: v for k, v in c2.items() if k[0] == "n"}, TOL_NX)
+        ctx.label("requery_after_rewiring")
 
 
 # --------------------------------------------------------------------------
@@ -428,6 +471,56 @@ def check_subhypergraph_centrality(case, ctx):
     if any(sum(1 for e in edges if {u, v} <= e) >= 2 for u, v in combinations(order, 2)):
         ctx.label("pair-in-several-hyperedges")
     ctx.nontrivial(len(edges) >= 3 and _nonconstant(exp))
+
+
+# --------------------------------------------------------------------------
+# C20.subhypergraph_centrality_heavy: heavy overlap (largest adjacency eigenvalue in the
+# hundreds, around float64's exp overflow at 709.78).  exp(A) itself overflows there, so the
+# reference is the shifted form  log (e^A)_ii = s + log sum_j v_ij^2 exp(lambda_j - s),
+# s = lambda_max, from numpy.linalg.eigh on the oracle's own adjacency matrix.
+
+
+@st.composite
+def heavy_overlap_cases(draw, tier):
+    m = draw(st.sampled_from([30, 45, 60]))          # shared core
+    k = draw(st.sampled_from([6, 9, 12, 13, 14, 16, 20]))  # hyperedges, each = core + own node
+    extra = draw(st.integers(0, 3))                   # a few small hyperedges on the side
+    side = [sorted(draw(st.lists(st.integers(0, m + k - 1), min_size=2, max_size=3, unique=True)))
+            for _ in range(extra)]
+    return {"m": m, "k": k, "side": side, "strs": draw(st.booleans())}
+
+
+def check_subhypergraph_centrality_heavy(case, ctx):
+    import numpy as np
+    from hypergraphx import Hypergraph
+    m, k = case["m"], case["k"]
+    name = (lambda i: "n%03d" % i) if case["strs"] else (lambda i: 3 * i - 7)
+    edges = []
+    for j in range(k):
+        e = frozenset([name(i) for i in range(m)] + [name(m + j)])
+        edges.append(e)
+    for sd in case["side"]:
+        e = frozenset(name(i) for i in sd)
+        if e not in edges:
+            edges.append(e)
+    nodes = set().union(*edges)
+    h = Hypergraph([tuple(sorted(e, key=repr)) for e in edges])
+    order = sorted(nodes, key=repr)
+    A = np.array(_adjacency(order, edges), dtype=float)
+    lam, V = np.linalg.eigh(A)
+    s0 = float(lam.max())
+    ref = s0 + np.log((V ** 2) @ np.exp(lam - s0))
+    exp = dict(zip(order, [float(x) for x in ref]))
+    got = _sub_centrality_by_node(h, nodes, "subhypergraph_centrality(H)")
+    ctx.label("lambda_max>709" if s0 > 709.78 else "lambda_max<=709")
+    for x in order:
+        tol = RTOL_SUB * max(1.0, abs(exp[x]))
+        require(math.isfinite(got[x]) and abs(got[x] - exp[x]) <= tol,
+                lambda: "subhypergraph_centrality(H) for node %r = %r, expected log (e^A)_ii = %r "
+                        "(tolerance %g; %d hyperedges sharing a core of %d nodes, largest "
+                        "adjacency eigenvalue %.1f)" % (x, got[x], exp[x], tol, k, m, s0),
+                key="sub-value-heavy")
+    ctx.nontrivial(s0 > 300)
 
 
 # --------------------------------------------------------------------------
@@ -711,6 +804,10 @@ CLAUSES = [
                 "hyperedge closeness"),
     Clause("subhypergraph_centrality", s_sub_cases, check_subhypergraph_centrality, quick=250,
            thorough=1500, shards_quick=2, rule=RULE),
+    Clause("subhypergraph_centrality_heavy", heavy_overlap_cases,
+           check_subhypergraph_centrality_heavy, quick=24, thorough=60,
+           rule="largest adjacency eigenvalue above 300 (heavy overlap; above 709.78 exp "
+                "overflows in float64)"),
     Clause("cec", lambda tier: s_eigen_cases(tier), check_cec, quick=200, thorough=1500,
            shards_quick=2, rule=RULE),
     Clause("hec", lambda tier: s_eigen_cases(tier), check_hec, quick=130, thorough=1500,
